@@ -35,8 +35,19 @@ TEXT["dur"] = ("XsDurable (code-layer TLA+ model of what survives a crash: per o
                "call after the first ACK a real SIGKILL image (ptrace supervisor) and reconstructed power-loss images (strace log, "
                "tools/durimg.py) are opened by the real Store::new in a fresh process; TLC validates every observation against the "
                "observer spec TraceDurable, which judges with the same XsDurProps operators.")
+TEXT["proc"] = ("XsHandlers / XsCommands / XsGenerators (code-layer TLA+ models of src/handlers, src/commands, src/generators: one "
+                "action per step of the serve loops, instances and tasks, restart = kill at any point + start; the code's known "
+                "deviations are named flags) are exhausted by TLC for 1-2 names x 2 contexts, <= 4 client actions, <= 1 restart with "
+                "the property statements as invariants; TLC -simulate client action lists of these models, the same lists with a "
+                "restart at every position, seeded random lists (waits between actions or none, bursts from several client threads) "
+                "and a regression list are executed against the three real serve loops wired as main.rs does, inside a worker "
+                "process that is killed / exits for a restart; the stream itself (every frame with stamps and CAS content) is the "
+                "trace and is validated by TLC against the observer spec TraceProc.")
 NOTE = {
  "codec": "Trusted: the transcription is checked against the code by the vectors themselves. Limit of the technique (DESIGN 5, C12): the grammar is exhaustive at token level, data values are classes.",
+ "proc": "Trusted: TLC, the runner's normalisation of frames (dense ranks, content tokens), the script catalogue being deterministic. "
+         "Bounded: MC_proc_*.cfg constants; histories sampled; absence of a frame is judged after a 20-30 s wait on something owed; "
+         "ephemeral / head:N TTLs and nu modules are not in the script catalogue.",
  "http": "Trusted: the harness' raw HTTP client and response parser. Bounded: one request per connection; follow routes over HTTP are exercised separately.",
  "dur": "Trusted: TLC, the ptrace supervisor, the strace-based reconstruction (self-checked against the real directory on every run), the ordered-metadata file-system model of tools/durimg.py, the abstraction of observations. Bounded: MC_dur_*.cfg constants; crash points at system-call granularity plus torn journal writes; memtable flush / journal rotation sampled by bulk runs, not modelled. CAS content durability against power loss is not claimed.",
  "conc": "Trusted: TLC, the gate hooks (events are logged under one mutex after the state change), rank abstraction of ids. Bounded: MC_conc_*.cfg constants; schedules sampled.",
@@ -45,11 +56,12 @@ NOTE = {
 TECH = {
  "dur": "TLC model checking of XsDurable + real kill images and reconstructed power-loss images recovered by the real store + TLC trace validation (TraceDurable)",
  "codec": "TLC enumeration of a TLA+ transcription of the codec + one implementation test per model case, results validated by TLC",
+ "proc": "TLC model checking of XsHandlers/XsCommands/XsGenerators + TLC trace validation (TraceProc) of client histories executed on the real serve loops, restarts by killing the serving process",
  "http": "TLC trace validation (TraceStore + status rules) of model-generated behaviours executed over HTTP, plus malformed request classes",
  "conc": "TLC model checking of XsConcurrent + gate-scheduled replay/exploration of real threads + TLC trace validation (TraceFollow)",
  "store": "TLC model checking of XsStore + TLC trace validation (TraceStore) of replayed behaviours on the real store",
 }
-DESIGN = {"dur": "DESIGN.md 3 (XsDurable), 4.4, 5 (C04 C10 C07); docs/dur-notes.md", "codec": "DESIGN.md 5 (C12)","http": "DESIGN.md 5 (C13), Appendix D","conc": "DESIGN.md 3, 4.1, 5 (C02 C03 C11)", "store": "DESIGN.md 3, 4, 5 (C01 C05 C07 C08 C09 C20)"}
+DESIGN = {"proc": "DESIGN.md 3 (XsHandlers/XsGenerators/XsCommands), 5 (C14-C19), docs/proc-notes.md", "dur": "DESIGN.md 3 (XsDurable), 4.4, 5 (C04 C10 C07); docs/dur-notes.md", "codec": "DESIGN.md 5 (C12)","http": "DESIGN.md 5 (C13), Appendix D","conc": "DESIGN.md 3, 4.1, 5 (C02 C03 C11)", "store": "DESIGN.md 3, 4, 5 (C01 C05 C07 C08 C09 C20)"}
 
 # what each check decides of its property, and through which group
 PROP = {
